@@ -169,6 +169,9 @@ impl Runner {
         match op {
             Op::Open(_) | Op::Reopen(_) => {
                 let before = self.real.obs();
+                // the file being written when the call began: where the previous session stopped
+                // (the GC pass of `open` may itself roll over while it records positions)
+                let cur_at_start = self.real.cursor.0;
                 let ex = self.real.exec(op);
                 self.record(op, &ex);
                 self.stats.inc("op.open");
@@ -190,8 +193,7 @@ impl Runner {
                         let unl = ex.events.iter().filter(|e| matches!(e, Event::Unlink(_))).count() as u64;
                         self.stats.add("unlink.at_open", unl);
                         self.check_state(&ctx);
-                        let cur = self.real.cursor.0;
-                        self.check_c06(&ctx, cur);
+                        self.check_c06(&ctx, cur_at_start);
                     }
                     other => {
                         self.violate("C01", format!("{}: open of a cleanly closed log failed: {:?}", ctx, other));
